@@ -179,6 +179,15 @@ def run_c27(ctx, pid):
                                  ("b4", 4, 6, 8, 100 if quick else 1500)):
         f_replays.append(pool.submit(stress, label, mb, nc, nm, n))
 
+    # ---- 4. end to end on two real actor systems: order / at-most-once at the receiving actors, dead letters at the sender
+    def sysrun(label, argv):
+        trace = ctx.tmp("%s.ndjson" % label)
+        p = ctx.run([exe] + argv + [str(ctx.seed), trace], timeout=900 if quick else 3000)
+        return label, json.loads(p.stdout.strip().splitlines()[-1]), judge_coalescer(ctx, label, trace, timeout=900 if quick else 3000), None
+
+    f_replays.append(pool.submit(sysrun, "sys-tell", ["sys-tell", "8", "30", "3", str(20 if quick else 400)]))
+    f_replays.append(pool.submit(sysrun, "sys-dead", ["sys-dead", "4", "12", str(5 if quick else 60)]))
+
     # ---- collect design results
     for f in f_design:
         f.result()
@@ -194,13 +203,14 @@ def run_c27(ctx, pid):
         "equals the walk's (otherwise the run continues freely and is still judged); walks are retried",
         "transport failures are scripted at the receiver before it delivers (a failed batch is never also delivered); "
         "the 5 s flush time-out is not exercised",
-        "the dead-letter publication behind the error handler (actor system side) is exercised by C18/C29 runs, here the "
-        "handler registered with WithCoalescingErrorHandler records the batch",
+        "in the puppet replays the handler registered with WithCoalescingErrorHandler records the failed batch; the real "
+        "dead-letter publication (enqueueCoalescedFailure) is exercised end to end only for an unreachable endpoint (sys-dead)",
         "puppet replays never park a thread inside a blocking select (a select step is taken only when a case is ready); "
         "really blocked submitters and writer are exercised by the free-running histories",
     ]
     known_hits = collections.Counter()
     violations = []
+    aborted = []
     for fut in f_replays:
         label, rs, j, drift = fut.result()
         judged.append(j)
@@ -214,6 +224,8 @@ def run_c27(ctx, pid):
             drifts.append(drift)
         if rs.get("first_drift"):
             drifts.append("%s: %s" % (label, rs["first_drift"]))
+        if rs.get("aborted"):
+            aborted.append(label)
         ctx.log("%-12s %s | histories %d nontrivial %d mismatches %d stuck %d%s"
                 % (label, {k: v for k, v in rs.items() if k not in ("first_drift", "events")}, j.histories, j.nontrivial,
                    len(j.mism), j.stuck, " | DRIFT " + drift if drift else ""))
@@ -240,7 +252,7 @@ def run_c27(ctx, pid):
            "watchdog": total["watchdog"], "stuck_histories": total["stuck"], "events_validated": total["events"],
            "conformance_drift": drifts[:5] or None, "known_finding_histories": dict(known_hits),
            "wire_metadata_mismatches": md_mism, "exhaustive": False}
-    if total["histories"] < 100 or total["nontrivial"] < 50:
+    if not violations and not aborted and (total["histories"] < 100 or total["nontrivial"] < 50):
         raise vlib.Infra("too few histories judged (%d, %d non-trivial)" % (total["histories"], total["nontrivial"]))
     if total["completed"] < total["behaviours"] // 2:
         drifts.append("only %d of %d walks were followed to their end" % (total["completed"], total["behaviours"]))
@@ -259,14 +271,256 @@ def run_c27(ctx, pid):
     for d in drifts[:5]:
         ctx.log("drift (not a verdict): " + d)
     ctx.evidence("model_checking", cov, assumptions)
+    if aborted:
+        raise vlib.Infra("the replay gave up after repeated watchdog expiries (%s): the code under test hangs; no recorded event "
+                         "contradicts the property" % ", ".join(aborted))
+
+
+# ------------------------------------------------------------------------------------------------ C28
+class PoolJudged:
+    def __init__(self):
+        self.histories = self.results = self.ok = self.stuck = self.lines = 0
+        self.mism, self.mdmism, self.rows = [], [], None
+
+
+def judge_pool(ctx, label, trace, timeout=1500):
+    rows = vlib.read_ndjson(trace)
+    r = ctx.tlc(SPEC, "Mon_ConnPool.cfg", dfs=True, files={"trace.ndjson": trace}, timeout=timeout, heap="6g", name="monp-" + label)
+    if r.depth != len(rows) + 1:
+        raise vlib.Infra("pool monitor consumed %d of %d trace lines (%s)" % (r.depth - 1, len(rows), label))
+    j = PoolJudged()
+    j.rows, j.lines = rows, len(rows)
+    j.mism = _tuples(r.out, "MISMATCH")
+    j.mdmism = _tuples(r.out, "MDMISMATCH")
+    hs = _tuples(r.out, "HISTORY")
+    j.histories = len(hs)
+    j.results = sum(int(h[1]) for h in hs)
+    j.ok = sum(int(h[2]) for h in hs)
+    j.stuck = len(_tuples(r.out, "STUCK"))
+    return j
+
+
+def conform_pool(ctx, label, trace, maxidle, nlines, timeout=1500):
+    name, path = _cfg_with(ctx, "Trace_ConnPool.cfg", "Trace_ConnPool_%s.cfg" % label, {"MaxIdle = 1": "MaxIdle = %d" % maxidle})
+    r = ctx.tlc(SPEC, name, module="Trace_ConnPool", dfs=True, files={"trace.ndjson": trace, name: path}, timeout=timeout,
+                heap="6g", expect_fail=True, name="confp-" + label)
+    if r.violated:
+        return "%s: invariant %s of ConnPool.tla violated on the real trace at line %d" % (label, r.violated, r.depth)
+    if r.error:
+        return "%s: conformance run failed: %s" % (label, r.error[:200])
+    if r.depth != nlines + 1:
+        return "%s: trace rejected at line %d of %d" % (label, r.depth, nlines)
+    return None
 
 
 def run_c28(ctx, pid):
-    raise vlib.Infra("C28 not built yet")
+    quick = ctx.quick
+    rng = ctx.rng
+    pool = concurrent.futures.ThreadPoolExecutor(max_workers=3 if quick else 4)
+    tmo = 900 if quick else 3000
+    f_design = [pool.submit(ctx.tlc_must_hold, SPEC, c, module="MC_ConnPool", timeout=tmo, workers=2 if quick else 6)
+                for c in (["MC_ConnPool_q.cfg", "MC_ConnPool_q2.cfg"] if quick else ["MC_ConnPool_t.cfg", "MC_ConnPool_q.cfg"])]
+    f_put = pool.submit(ctx.tlc, SPEC, "MC_ConnPool_put.cfg", module="MC_ConnPool", timeout=900, expect_fail=True, workers=2)
+    dumps = [("q", 1, 600), ("q2", 1, 600)] if quick else [("q", 1, 10 ** 9), ("q2", 1, 10 ** 9), ("t", 2, 12000)]
+    f_dumps = [(tag, mi, nsel, pool.submit(ctx.tlc, SPEC, "Dump_ConnPool_%s.cfg" % tag, module="MC_ConnPool", timeout=tmo,
+                                           dump_dot=True, workers=2)) for tag, mi, nsel in dumps]
+    exe = ctx.build("remoting")
+    total = collections.Counter()
+    samples, drifts, futs = [], [], []
+
+    def replay(label, beh, maxidle):
+        bfile, trace = ctx.tmp("pool-%s-behaviours.ndjson" % label), ctx.tmp("pool-%s-trace.ndjson" % label)
+        vlib.write_ndjson(bfile, beh)
+        p = ctx.run([exe, "pool-replay", bfile, trace, str(maxidle), "8"], timeout=tmo)
+        rs = json.loads(p.stdout.strip().splitlines()[-1])
+        j = judge_pool(ctx, label, trace, timeout=tmo)
+        return label, rs, j, conform_pool(ctx, label, trace, maxidle, j.lines, timeout=tmo)
+
+    def stress(label, maxidle, callers, nex, n):
+        trace = ctx.tmp("pool-stress-%s.ndjson" % label)
+        p = ctx.run([exe, "pool-stress", str(maxidle), str(callers), str(nex), str(n), str(ctx.seed * 100 + maxidle), trace], timeout=tmo)
+        return label, json.loads(p.stdout.strip().splitlines()[-1]), judge_pool(ctx, "stress-" + label, trace, timeout=tmo), None
+
+    def sysask(label, callers, asks, rounds):
+        trace = ctx.tmp("sys-ask-%s.ndjson" % label)
+        p = ctx.run([exe, "sys-ask", str(callers), str(asks), str(rounds), str(ctx.seed), trace], timeout=tmo)
+        return label, json.loads(p.stdout.strip().splitlines()[-1]), judge_pool(ctx, label, trace, timeout=tmo), None
+
+    for tag, mi, nsel, fut in f_dumps:
+        d = fut.result()
+        g = tlagraph.Graph.load(os.path.join(d.rundir, "graph.dot"))
+        walks, left = g.edge_cover(rng)
+        if left:
+            raise vlib.Infra("edge cover incomplete (%s)" % tag)
+        total["graph_edges"] += g.nedges
+        total["cover_walks"] += len(walks)
+        beh = walks_to_behaviours(vlib.sample(rng, walks, nsel))
+        if len(samples) < 3:
+            samples.append({"walk_" + tag: [[s["a"]] + s["args"] for s in beh[0]]})
+        futs.append(pool.submit(replay, "cover-" + tag, beh, mi))
+    for label, mi, nc, ne, n in (("i0", 0, 6, 4, 60 if quick else 800), ("i1", 1, 6, 4, 60 if quick else 800),
+                                 ("i4", 4, 12, 4, 60 if quick else 800)):
+        futs.append(pool.submit(stress, label, mi, nc, ne, n))
+    futs.append(pool.submit(sysask, "sys-ask", 8, 12, 6 if quick else 80))
+    for f in f_design:
+        f.result()
+    if f_put.result().violated not in ("PoolClean", "OwnReply", "OwnPrefix"):
+        raise vlib.Infra("ConnPool.tla with Defects={PutOnTimeout} no longer violates PoolClean/OwnReply (spec changed?)")
+    violations = []
+    md = 0
+    for fut in futs:
+        label, rs, j, drift = fut.result()
+        total["histories"] += j.histories
+        total["results"] += j.results
+        total["ok"] += j.ok
+        total["events"] += j.lines
+        total["stuck"] += j.stuck
+        for k in ("behaviours", "completed", "drift", "steps"):
+            total[k] += rs.get(k, 0)
+        if drift:
+            drifts.append(drift)
+        if rs.get("first_drift"):
+            drifts.append("%s: %s" % (label, rs["first_drift"]))
+        md += len(j.mdmism)
+        ctx.log("%-10s %s | histories %d exchanges %d (ok %d) mismatches %d%s"
+                % (label, {k: v for k, v in rs.items() if k not in ("first_drift", "events")}, j.histories, j.results, j.ok,
+                   len(j.mism), " | DRIFT " + drift if drift else ""))
+        for m in j.mism:
+            violations.append((label, j, int(m[0]), m[1], m[2], m[3]))
+    pool.shutdown()
+    st, tr = ctx.states()
+    cov = {"states": st, "transitions": tr, "traces_validated_against_impl": total["histories"], "samples": samples,
+           "evaluations": total["results"], "distinct_nontrivial": total["ok"],
+           "rule": "evaluations = exchanges (SendProto / SendBatchProto / Ask / BatchAsk calls) whose outcome was judged; "
+                   "distinct_nontrivial = exchanges that returned replies (each carries its own request ids); histories = puppet "
+                   "replays of edge-cover walks of ConnPool.tla on the real inet.Client against a ProtoServer whose replies the walk "
+                   "releases + free-running concurrent exchanges with deadlines + Ask/BatchAsk between two real actor systems",
+           "graph_edges": total["graph_edges"], "edge_cover_walks": total["cover_walks"], "walks_replayed": total["behaviours"],
+           "walks_followed_to_the_end": total["completed"], "replay_drift": total["drift"], "steps_replayed": total["steps"],
+           "stuck_histories": total["stuck"], "events_validated": total["events"], "conformance_drift": drifts[:5] or None,
+           "ask_metadata_mismatches": md, "exhaustive": False}
+    assumptions = [
+        "without hooks in inet.Client the walk controls when the server answers and which deadlines are short; a caller blocked in "
+        "a read takes its reply in the same step (ConnPool.tla Reply); Get/Put themselves are mutex-protected critical sections",
+        "short deadlines are real time (120 ms): a short-deadline exchange is never answered in time by construction",
+        "idle-timeout eviction and TLS / compression wrappers are not exercised",
+    ]
+    if total["histories"] < 100 or total["ok"] < 200:
+        raise vlib.Infra("too few exchanges judged (%d histories, %d ok)" % (total["histories"], total["ok"]))
+    if violations:
+        label, j, line, who, want, got = violations[0]
+        snippet = ctx.tmp("violation-%s.ndjson" % label)
+        vlib.write_ndjson(snippet, _cut_history(j.rows, line))
+        rp = ctx.save_replay("%s-seed%d" % (label, ctx.seed), snippet)
+        ctx.evidence("model_checking", cov, assumptions, violations=len(violations))
+        raise vlib.Violation(pid, rp, "pooled client (%s, trace line %d): caller %s asked %s and was handed %s without an error; "
+                             "%d mismatches in total" % (label, line, who, want, got, len(violations)))
+    for d in drifts[:5]:
+        ctx.log("drift (not a verdict): " + d)
+    ctx.evidence("model_checking", cov, assumptions)
 
 
+# ------------------------------------------------------------------------------------------------ C29
 def run_c29(ctx, pid):
-    raise vlib.Infra("C29 not built yet")
+    quick = ctx.quick
+    rng = ctx.rng
+    pool = concurrent.futures.ThreadPoolExecutor(max_workers=3 if quick else 4)
+    tmo = 900 if quick else 3000
+    # finding ids are per property: the coalescer's LateSubmit belongs to C27; here its graph is only a walk source
+    asis = '{"LateSubmit"}'
+    f_design = pool.submit(ctx.tlc_must_hold, SPEC, "MC_Meta_q.cfg" if quick else "MC_Meta_t.cfg", module="MetaCoalescer",
+                           timeout=tmo, workers=2 if quick else 6)
+    f_batchmd = pool.submit(ctx.tlc, SPEC, "MC_Meta_batchmd.cfg", module="MetaCoalescer", timeout=900, expect_fail=True, workers=2)
+    f_mixed = pool.submit(ctx.tlc, SPEC, "MC_Meta_mixed.cfg", module="MetaCoalescer", timeout=900, expect_fail=True, workers=2)
+    f_dump = pool.submit(ctx.tlc, SPEC, "Dump_Coalescer_c.cfg" if quick else "Dump_Coalescer_e.cfg", module="MC_Coalescer",
+                         timeout=tmo, dump_dot=True, workers=2)
+    gname, gpath = _cfg_with(ctx, "Gen_Coalescer.cfg", "Gen_Coalescer.cfg", {'Defects = {"LateSubmit"}': "Defects = " + asis})
+    f_gen = pool.submit(ctx.tlc, SPEC, gname, module="Gen_Coalescer", simulate="num=%d" % (300 if quick else 3000),
+                        deadlock_check=False, timeout=tmo, workers=1, files={gname: gpath}, depth=200)
+    exe = ctx.build("remoting")
+    total = collections.Counter()
+    samples, futs = [], []
+
+    def replay(label, beh, maxbatch):
+        bfile, trace = ctx.tmp("meta-%s-behaviours.ndjson" % label), ctx.tmp("meta-%s-trace.ndjson" % label)
+        vlib.write_ndjson(bfile, beh)
+        p = ctx.run([exe, "coal-replay", bfile, trace, str(maxbatch), "3"], timeout=tmo)
+        return label, json.loads(p.stdout.strip().splitlines()[-1]), judge_coalescer(ctx, "meta-" + label, trace, timeout=tmo), "wire"
+
+    def systell(label, callers, msgs, rcv, rounds):
+        trace = ctx.tmp("sys-tell-%s.ndjson" % label)
+        p = ctx.run([exe, "sys-tell", str(callers), str(msgs), str(rcv), str(rounds), str(ctx.seed), trace], timeout=tmo)
+        return label, json.loads(p.stdout.strip().splitlines()[-1]), judge_coalescer(ctx, label, trace, timeout=tmo), "tell"
+
+    def sysask(label, callers, asks, rounds):
+        trace = ctx.tmp("sys-ask-%s.ndjson" % label)
+        p = ctx.run([exe, "sys-ask", str(callers), str(asks), str(rounds), str(ctx.seed), trace], timeout=tmo)
+        return label, json.loads(p.stdout.strip().splitlines()[-1]), judge_pool(ctx, label, trace, timeout=tmo), "ask"
+
+    d = f_dump.result()
+    g = tlagraph.Graph.load(os.path.join(d.rundir, "graph.dot"))
+    walks, left = g.edge_cover(rng)
+    if left:
+        raise vlib.Infra("edge cover incomplete")
+    beh = walks_to_behaviours(vlib.sample(rng, walks, 500 if quick else 8000))
+    samples.append({"walk": [[s["a"]] + s["args"] for s in beh[0]]})
+    futs.append(pool.submit(replay, "cover", beh, 2))
+    sim = [[s for s in b if s["a"] != "pad"] for b in vlib.parse_sim_behaviours(f_gen.result().out)]
+    if len(sim) < (50 if quick else 500):
+        raise vlib.Infra("TLC simulation produced only %d walks" % len(sim))
+    futs.append(pool.submit(replay, "sim", sim, 2))
+    # many short rounds (small batches that mix callers) and a few big ones (batches up to the 256 limit)
+    futs.append(pool.submit(systell, "tell-small", 6, 6, 3, 150 if quick else 3000))
+    futs.append(pool.submit(systell, "tell-big", 12, 120, 4, 4 if quick else 60))
+    futs.append(pool.submit(sysask, "ask", 8, 12, 6 if quick else 80))
+    f_design.result()
+    if f_batchmd.result().violated != "MdRestored":
+        raise vlib.Infra("MetaCoalescer.tla with MDefects={BatchMd} no longer violates MdRestored (spec changed?)")
+    if f_mixed.result().violated != "NoMixedBatch":
+        raise vlib.Infra("MetaCoalescer.tla: no batch mixes callers within the bounds (vacuous)")
+    violations = []
+    for fut in futs:
+        label, rs, j, kind = fut.result()
+        total["histories"] += j.histories
+        total["events"] += j.lines
+        total["stuck"] += j.stuck
+        if kind == "ask":
+            mdm = [(int(m[0]), m[1], m[2]) for m in j.mdmism]
+            n = sum(1 for e in j.rows if e["op"] == "recv")
+        else:
+            mdm = [(int(m[0]), m[2], m[3]) for m in j.mism if m[1] == "md"]
+            n = sum(len(e["ids"]) for e in j.rows if e["op"] == "dlv")
+            total["mixed_batches"] += sum(1 for e in j.rows if e["op"] == "dlv" and len({i // 1000 for i in e["ids"]}) > 1)
+        total["messages"] += n
+        total["batches_gt1"] += rs.get("batches_gt1", 0)
+        ctx.log("%-10s %s | histories %d messages with restored metadata %d, mismatches %d, stuck %d"
+                % (label, {k: v for k, v in rs.items() if k not in ("first_drift", "events")}, j.histories, n, len(mdm), j.stuck))
+        for line, mid, got in mdm:
+            violations.append((label, j, line, mid, got))
+    pool.shutdown()
+    st, tr = ctx.states()
+    cov = {"states": st, "transitions": tr, "traces_validated_against_impl": total["histories"], "samples": samples,
+           "evaluations": total["messages"], "distinct_nontrivial": total["messages"],
+           "rule": "evaluations = messages whose restored header was compared with the injected one: per RemoteMessage on the wire "
+                   "in puppet replays of Coalescer.tla walks with maxBatch 2 (batches that mix callers), per message in "
+                   "ReceiveContext.Context() of real receiving actors for concurrent Tell (coalesced batches) and Ask / BatchAsk "
+                   "between two real actor systems; every message has its own header value",
+           "wire_batches_mixing_callers": total["mixed_batches"], "system_batches_with_more_than_one_message": total["batches_gt1"],
+           "stuck_histories": total["stuck"], "events_validated": total["events"], "exhaustive": False}
+    assumptions = ["the propagator is the harness's (one header carrying the message id); header maps with several keys, "
+                   "multi-valued headers and propagators that fail are not varied",
+                   "BatchAsk carries ONE caller context for the whole batch by API design: the id injected for its messages is the call's"]
+    if total["messages"] < 1000 or total["mixed_batches"] < 20:
+        raise vlib.Infra("too little judged (%d messages, %d wire batches mixing callers)" % (total["messages"], total["mixed_batches"]))
+    if violations:
+        label, j, line, mid, got = violations[0]
+        snippet = ctx.tmp("violation-%s.ndjson" % label)
+        vlib.write_ndjson(snippet, _cut_history(j.rows, line))
+        rp = ctx.save_replay("%s-seed%d" % (label, ctx.seed), snippet)
+        ctx.evidence("model_checking", cov, assumptions, violations=len(violations))
+        raise vlib.Violation(pid, rp, "context metadata (%s, trace line %d): message %s was sent with header value = its id but the "
+                             "receiver restored %s; %d mismatches in total" % (label, line, mid, got, len(violations)))
+    ctx.evidence("model_checking", cov, assumptions)
 
 
 def run(ctx, pid):
